@@ -2,5 +2,6 @@ SPECIFICATION Spec
 CONSTANTS
   MaxLines = 3
   LenClasses = {"t", "h", "m"}
+  LayoutSet <- McLayouts
 INVARIANTS TypeOK Contiguous RunsToOldest ReadBackwardsComplete SeekLandsOnEntry OkSeekKeepsOlder AbsentReports PresentNeverError FileClasses BelowAgrees FallthroughAdmissible EmptyAsTooEarlyComposes OnlyTooEarlyForEmptyCurrent
 PROPERTY FailedSeekKeepsPosition
